@@ -14,6 +14,15 @@ EXTRA_DEPS = {
     "dep/proto": ("proto", "type T struct{}\ntype Message struct{}\n"),
     "dep/protov2": ("protov2", "type T struct{}\ntype Message struct{}\n"),
     "dep/named/client": ("apiclient", "type T struct{}\ntype Conn struct{}\n"),
+    "dep/meta/v1": ("v1", "type T struct{}\ntype Name string\n"),
+    "dep/ctx/context": ("context", "type T struct{}\ntype Scope struct{}\n"),
+    "dep/paging": ("paging", "type Cursor string\ntype Page[T any] struct{ Items []T }\n"),
+    "dep/coll": ("coll", "type Set[T comparable] = map[T]struct{}\ntype Pair[A, B any] = struct{ L A; R B }\n"
+                         "type List[T any] []T\n"),
+    "dep/ids": ("ids", "type ID string\ntype T struct{}\n"),
+    "dep/kinds": ("kinds", "type Text interface{ ~string }\ntype Real interface{ ~float32 | ~float64 }\n"
+                           "type Entity struct{}\n"),
+    "dep/subvendor/model": ("model", "type T struct{}\ntype Row struct{}\n"),
     "dep/gw/gateway": ("paygw", "type Charge struct{}\ntype Receipt struct{}\ntype T struct{}\n"
                                 "type Processor interface {\n\tPay(c Charge) (*Receipt, error)\n}\n"),
 }
@@ -422,6 +431,235 @@ type All interface {
 }
 """
 case("regen3-All", "adv/regen3", ["All"])
+
+
+# ---- second round of seeded changes: one package per mechanism ----
+# an alias name bound to different paths in different files (import names are file scoped)
+FILES["adv/filealias/a.go"] = """package filealias
+
+import pb "example.com/m/dep/core/v1"
+
+type Legacy interface{ Old(x pb.T) }
+"""
+FILES["adv/filealias/b.go"] = """package filealias
+
+import pb "example.com/m/dep/apps/v1"
+
+type Service interface {
+	Legacy
+	New(y pb.T)
+}
+
+type Fresh interface{ Only(y pb.T) }
+"""
+FILES["adv/filealias/c.go"] = """package filealias
+
+import "example.com/m/dep/alpha"
+
+type Opener interface{ Open(a alpha.T) }
+"""
+FILES["adv/filealias/d.go"] = """package filealias
+
+import alpha "example.com/m/dep/beta"
+
+type Saver interface{ Save(b alpha.T) }
+"""
+flagsets("filealias-svc", "adv/filealias", ["Service"])
+case("filealias-lf", "adv/filealias", ["Legacy", "Fresh"], pkg="mocks")
+case("filealias-fl", "adv/filealias", ["Fresh", "Legacy"])
+case("filealias-os", "adv/filealias", ["Opener", "Saver"])
+case("filealias-so", "adv/filealias", ["Saver", "Opener"], pkg="mocks", stub=True)
+
+# a standard-library package registered before a user package of the same name
+FILES["adv/stdshadow/a.go"] = """package stdshadow
+
+import "context"
+
+type Acquirer interface{ Acquire(ctx context.Context) error }
+"""
+FILES["adv/stdshadow/b.go"] = """package stdshadow
+
+import "example.com/m/dep/ctx/context"
+
+type Scoped interface{ In(s context.Scope) }
+
+type Session interface {
+	Acquirer
+	Scoped
+}
+"""
+case("stdshadow-as", "adv/stdshadow", ["Acquirer", "Scoped"])
+case("stdshadow-session", "adv/stdshadow", ["Session"])
+case("stdshadow-session-m", "adv/stdshadow", ["Session"], pkg="mocks", stub=True, resets=True)
+
+# three packages of one name, two of them inside one parameter type, no source aliases in reach
+FILES["adv/meta3/base/a.go"] = """package base
+
+import (
+	appsv1 "example.com/m/dep/apps/v1"
+	corev1 "example.com/m/dep/core/v1"
+)
+
+type Syncer interface {
+	Sync(m map[corev1.T]appsv1.T) error
+	Pair(f func(corev1.T) appsv1.T, c chan appsv1.T)
+}
+"""
+FILES["adv/meta3/ctl/a.go"] = """package ctl
+
+import (
+	"example.com/m/adv/meta3/base"
+	"example.com/m/dep/meta/v1"
+)
+
+type Controller interface {
+	Name(n v1.Name) string
+	base.Syncer
+}
+
+type Direct interface {
+	base.Syncer
+}
+"""
+flagsets("meta3-ctl", "adv/meta3/ctl", ["Controller"])
+case("meta3-direct", "adv/meta3/ctl", ["Direct"])
+case("meta3-both", "adv/meta3/ctl", ["Direct", "Controller"], pkg="mocks")
+
+# constraints whose type set excludes int; aliases of instantiated generic interfaces
+FILES["adv/generic2/a.go"] = """package generic2
+
+import "example.com/m/dep/kinds"
+
+type Floats[F ~float32 | ~float64] interface{ Sum(xs []F) F }
+
+type Texts[S ~string] interface{ Join(xs ...S) S }
+
+type Index[K kinds.Text, V any] interface {
+	Find(k K) (V, kinds.Entity)
+}
+
+type Reals[R kinds.Real] interface{ Max(a, b R) R }
+
+type UserID string
+
+type User struct{}
+
+type Repo[K ~string, V any] interface {
+	Get(k K) (V, error)
+}
+
+type UserRepo = Repo[UserID, User]
+
+type Defined Repo[UserID, *User]
+"""
+for n in ["Floats", "Texts", "Index", "Reals", "UserRepo", "Defined", "Repo"]:
+    case("generic2-" + n, "adv/generic2", [n])
+    case("generic2-%s-m" % n, "adv/generic2", [n], pkg="mocks", stub=True)
+
+# generated names that meet local types named like packages; names that differ by an underscore
+FILES["adv/naming2/a.go"] = """package naming2
+
+import (
+	"context"
+	"go/token"
+	"time"
+)
+
+type Token struct{}
+
+type Time struct{}
+
+type Context struct{}
+
+type Request struct{}
+
+type Frame struct{}
+
+type Emitter interface {
+	Emit(Token, token.Token)
+}
+
+type Clock interface {
+	At(Time, time.Time)
+	Ctx(context Context, _ context.Context)
+}
+
+type Under interface {
+	Handle(req Request, _req Frame)
+	One(_reason string)
+	Two(x, _x, __x int)
+}
+"""
+flagsets("naming2-emit", "adv/naming2", ["Emitter"])
+case("naming2-clock", "adv/naming2", ["Clock"])
+case("naming2-clock-emit", "adv/naming2", ["Clock", "Emitter"], stub=True)
+flagsets("naming2-under", "adv/naming2", ["Under"], modes=("",))
+
+# two named types of one package in one type, the later one instantiated with a local type
+FILES["adv/paging/a.go"] = """package paging
+
+import (
+	"example.com/m/dep/coll"
+	"example.com/m/dep/ids"
+	pg "example.com/m/dep/paging"
+)
+
+type Item struct{}
+
+type Lister interface {
+	List() map[pg.Cursor]pg.Page[Item]
+	Pages() pg.Page[pg.Page[*Item]]
+	Resolve(s coll.Set[ids.ID]) coll.Pair[ids.ID, Item]
+	Each(l coll.List[coll.List[ids.T]], f func(coll.Set[ids.ID]) coll.List[Item])
+}
+"""
+flagsets("paging", "adv/paging", ["Lister"], modes=("", "mocks", "paging_test"))
+
+# a path element that merely ends in "vendor"
+FILES["adv/vendorish/a.go"] = """package vendorish
+
+import (
+	"example.com/m/dep/multivendor/catalog"
+	"example.com/m/dep/subvendor/model"
+)
+
+type Shop interface {
+	Stock(c catalog.T) []model.Row
+}
+"""
+flagsets("vendorish", "adv/vendorish", ["Shop"])
+
+# regeneration: an alias the conflict resolution overrode; a parameter named like an import of the mock file only
+FILES["adv/regen4/a_billing.go"] = """package regen4
+
+import client "example.com/m/dep/one/client"
+
+type Biller interface{ Bill(c client.T) error }
+"""
+FILES["adv/regen4/b_shipping.go"] = """package regen4
+
+import "example.com/m/dep/two/client"
+
+type Shipper interface{ Ship(c client.T) error }
+
+type Service interface {
+	Biller
+	Shipper
+}
+"""
+case("regen4-svc", "adv/regen4", ["Service"])
+case("regen4-svc-stub", "adv/regen4", ["Service"], stub=True, resets=True)
+FILES["adv/regen5/a.go"] = """package regen5
+
+type Record struct{}
+
+type Journal interface {
+	Append(rec Record, sync bool) error
+	Flush(sync, fsync bool)
+}
+"""
+case("regen5-journal", "adv/regen5", ["Journal"])
+case("regen5-journal-resets", "adv/regen5", ["Journal"], resets=True)
 
 
 def write_all(root, write):
